@@ -11,6 +11,12 @@ after every such action what the writer has done.  Three sub-harnesses:
   B  delay injection       instrumented `threading.Event` (slow `clear()`, slow `wait()`), instant device
   C  held priority queue   `disconnect(wait=True)` issued while a statement is still queued
 
+Release scripts also run (a) under a logging set-up of the program (`case["log"]`: the writer module's logger switched on,
+a sink that takes its time per record - the reader thread is then slow inside the handling of one device line; installed
+per case and removed afterwards) and (b) two at a time (`case["duo"]`, `case["sched"]`): two writers alive in one process,
+each on its own device with its own caller thread, their scripts interleaved op by op; every clause is judged per writer
+on that writer's own event log, and each writer is compared with the model run of its own script.
+
 Handshakes: line-number mode (the device is silent until it answers the probe `G4 P0`; printcore sends `M110 N-1`
 twice) and no-line-number mode (`grbl`: the device greets with `Grbl …` as soon as the port is open, printcore
 sends no `M110` and connect() returns on the `ok` of the probe, which is released like any other line - late).
@@ -23,9 +29,12 @@ The oracle works on the event log only (independent of the model).
 """
 from __future__ import annotations
 
+import contextlib
 import json
 import logging
+import os
 import re
+import tempfile
 import queue
 import random
 import threading
@@ -38,6 +47,7 @@ from . import sim_c16 as sim
 PROP = "C16"
 FID_BACKLOG = "C16-handshake-backlog"
 FID_SURPLUS = "C16-surplus-reply"
+FID_TWICE = "C16-error-reported-twice"
 
 STATUS = [
     "echo:busy: processing",
@@ -214,8 +224,9 @@ def gen_stmt(rng, k):
     return pad_l + body + pad_r
 
 
-def gen_script(rng, handshake: bool, allow_temp: bool, p_err: float):
-    """reply lines for one consumed command: ([(text, errorish)], pre-word, term-word)"""
+def gen_script(rng, handshake: bool, allow_temp: bool, p_err: float, p_report: float = 0.35):
+    """reply lines for one consumed command: ([(text, errorish)], pre-word, term-word); p_report: how often the
+    acknowledgement of a statement carries the reading itself (`ok T:… B:…`, `ok X:… Y:…`)"""
     n_pre = rng.choice([0, 0, 0, 1, 1, 2, 3])
     pre, lines = "", []
     for _ in range(n_pre):
@@ -234,7 +245,7 @@ def gen_script(rng, handshake: bool, allow_temp: bool, p_err: float):
         lines.append((rng.choice(BAD) if rng.random() < 0.4 else error_line(rng), True))
     else:
         term = "o"
-        if not handshake and rng.random() < 0.35:
+        if not handshake and rng.random() < p_report:
             line = report_line(rng, True)      # the reply itself carries the reading (ok T:… / ok X:…)
         else:
             line = rng.choice(OK_PLAIN if handshake else OK_ANYCASE)
@@ -242,7 +253,7 @@ def gen_script(rng, handshake: bool, allow_temp: bool, p_err: float):
     return lines, (pre or "-"), term
 
 
-def gen_case(rng, kind="serial", flavour=None, timeout=None, grbl=False):
+def gen_case(rng, kind="serial", flavour=None, timeout=None, grbl=False, p_report=0.35):
     """A release script.  flavours: clean | backlog | connect-error | loss.  grbl: the device greets with `Grbl …`
     before anything else (no-line-number mode): the only handshake commands are the probes, and the greeting is on
     the wire ahead of the probe's reply, so that reply is always released after startprint() has run (released
@@ -278,7 +289,8 @@ def gen_case(rng, kind="serial", flavour=None, timeout=None, grbl=False):
             hs = consumed < n_hs
             # status lines containing "T:" bring printcore online: during the handshake that is the backlog flavour
             lines, pre, term = gen_script(rng, hs, allow_temp=(not hs) or flavour == "backlog",
-                                          p_err=(1.0 if consumed == bad_cmd else 0.0) if hs else p_err_stmt)
+                                          p_err=(1.0 if consumed == bad_cmd else 0.0) if hs else p_err_stmt,
+                                          p_report=p_report)
             ops.append(["D", pre, term, lines])
             consumed += 1
             wire += [0] * (len(lines) - 1) + [1]
@@ -425,6 +437,197 @@ def fragmented_corpus():
     return [a, b]
 
 
+# ------------------------------------------------------------------ ambient configuration: the program's logging set-up
+# The writer logs through the logger of its module (INFO per call, DEBUG per device line and per stored reading).  A
+# program that switches that on and sends the records to a sink that takes its time (a serial console, a network log,
+# a file that is synced per record) makes the reader thread slow *inside* the handling of one device line - a schedule
+# the instant device of sub-harness B never produces.  Nothing of the property depends on the logging set-up.
+def gen_log_config(rng):
+    sink = rng.choice(["sleep", "sleep", "sleep", "file"])
+    return {"level": rng.choice(["DEBUG", "DEBUG", "DEBUG", "INFO"]),
+            "at": rng.choice([0, 0, 0, 1, 2]),      # handler and level on the writer module's logger / 1, 2 packages above it
+            "sink": sink,
+            "delay_ms": rng.choice([3, 6, 12, 25]) if sink == "sleep" else rng.choice([0, 1, 3]),
+            "debug_only": rng.random() < 0.3}
+
+
+class SlowSink(logging.Handler):
+    """A log handler that formats every record and then takes its time: sleeps, or writes to a file synced per record."""
+
+    def __init__(self, cfg):
+        super().__init__()
+        self.delay = cfg.get("delay_ms", 0) / 1000.0
+        self.debug_only = bool(cfg.get("debug_only"))
+        self.fh = tempfile.TemporaryFile("w") if cfg.get("sink") == "file" else None
+        self.records = 0
+        self.setFormatter(logging.Formatter("%(asctime)s %(threadName)s %(name)s %(levelname)s %(message)s"))
+
+    def emit(self, record):
+        text = self.format(record)
+        self.records += 1
+        if self.fh is not None:
+            self.fh.write(text + "\n")
+            self.fh.flush()
+            os.fsync(self.fh.fileno())
+        if self.delay and (record.levelno <= logging.DEBUG or not self.debug_only):
+            time.sleep(self.delay)
+
+    def close(self):
+        if self.fh is not None:
+            self.fh.close()
+            self.fh = None
+        super().close()
+
+
+@contextlib.contextmanager
+def logging_config(cfg):
+    """Install the case's logging set-up for the duration of the case and put everything back afterwards (levels,
+    handlers, propagation, the process-wide `logging.disable` of run()).  Records never leave the package's loggers."""
+    if not cfg:
+        yield None
+        return
+    from gscrib.writers import printrun_writer
+    parts = printrun_writer.__name__.split(".")
+    target = logging.getLogger(".".join(parts[: len(parts) - int(cfg.get("at", 0))]))
+    top = logging.getLogger(parts[0])
+    saved = [(lg, lg.level, list(lg.handlers), lg.propagate, lg.disabled) for lg in {target, top}]
+    saved_disable = logging.root.manager.disable
+    sink = SlowSink(cfg)
+    try:
+        logging.disable(logging.NOTSET)
+        top.propagate = False
+        top.addHandler(logging.NullHandler())
+        target.setLevel(cfg.get("level", "DEBUG"))
+        target.addHandler(sink)
+        yield sink
+    finally:
+        for lg, level, handlers, propagate, disabled in saved:
+            lg.handlers[:] = handlers
+            lg.setLevel(level)
+            lg.propagate, lg.disabled = propagate, disabled
+        logging.disable(saved_disable)
+        sink.close()
+
+
+def n_handshake_cmds(case) -> int:
+    return sum(1 for op in case["ops"] if op[0] == "P") + (1 if case.get("grbl") else 3)
+
+
+def reading_acks(case) -> int:
+    """statements of the script whose acknowledgement line itself carries readings"""
+    n_hs, seen, hits = n_handshake_cmds(case), 0, 0
+    for op in case["ops"]:
+        if op[0] == "D":
+            seen += 1
+            if seen > n_hs and op[2] == "o" and len(readings_of(op[3][-1][0])) >= 1:
+                hits += 1
+    return hits
+
+
+def gen_logged_case(rng, kind="serial"):
+    """A clean release script most of whose acknowledgements carry the requested reading on the `ok` line itself
+    (Marlin `M105` -> `ok T:.. B:..`, `ok X:.. Y:..`), run under a logging set-up with a slow sink.  The clause judged
+    is the existing one: when write() returns, the reading on its own acknowledgement is available."""
+    for _ in range(20):
+        case = gen_case(rng, kind=kind, flavour="clean", grbl=rng.random() < 0.25, p_report=0.8)
+        if reading_acks(case) >= 1:
+            break
+    case["log"] = gen_log_config(rng)
+    case["flavour"] += "+logging"
+    return case
+
+
+def logged_corpus():
+    """Minimal member of the family: a Marlin-style temperature poll between moves, the answer on the acknowledgement
+    line, DEBUG logging of the writer module to a sink that takes 10 ms per record."""
+    ok = [("ok", False)]
+    ops = [["start"]] + [["D", "-", "o", ok], ["R"]] * 3
+    stmts = []
+    for k, (t, b) in enumerate(((21.5, 60.0), (22.5, 61.0))):
+        stmts += [f"G1 X{10 + k} F600\n", "M105\n" if k == 0 else "M105 ; again\n"]
+        ops += [["D", "-", "o", ok], ["R"], ["D", "-", "o", [(f"ok T:{t:.1f} /0.0 B:{b:.1f} /0.0", False)]], ["R"]]
+    ops += [["D", "-", "o", ok], ["R"], ["settle"]]
+    return [{"kind": "serial", "flavour": "clean+logging", "n": len(stmts), "disc": True, "stmts": stmts, "ops": ops,
+             "log": {"level": "DEBUG", "at": 0, "sink": "sleep", "delay_ms": 10, "debug_only": False}}]
+
+
+# ------------------------------------------------------------------ two writers alive at once (two machines, one program)
+def handshake_ops(case) -> int:
+    """number of leading ops of a script that make up its handshake (up to the release of the terminal reply to the
+    last handshake command); an estimate used for scheduling only - every schedule is a legal one"""
+    n_hs, wire, heard = n_handshake_cmds(case), [], 0
+    for i, op in enumerate(case["ops"]):
+        if op[0] == "D":
+            wire += [0] * (len(op[3]) - 1) + [1]
+        elif op[0] in ("G", "X"):
+            wire.append(0)
+        elif op[0] in ("R", "F") and wire:
+            heard += wire.pop(0)
+            if heard >= n_hs:
+                return i + 1
+    return len(case["ops"])
+
+
+def duo_schedule(rng, members, sequential: bool):
+    """whose next op is played, op by op: short runs per writer, so that lines reach one writer while the other one's
+    write() waits for an acknowledgement that is slow to come; `sequential`: the two handshakes one after the other"""
+    lens, pos, sched = [len(m["ops"]) for m in members], [0, 0], []
+    if sequential:
+        for j in (0, 1):
+            pos[j] = handshake_ops(members[j])
+            sched += [j] * pos[j]
+    while pos[0] < lens[0] or pos[1] < lens[1]:
+        j = rng.randrange(2)
+        if pos[j] >= lens[j]:
+            j = 1 - j
+        run = min(rng.choice([1, 1, 2, 2, 3, 4]), lens[j] - pos[j])
+        sched += [j] * run
+        pos[j] += run
+    return sched
+
+
+def make_duo(members, sched, sequential):
+    kinds = "+".join(m["kind"] for m in members)
+    return {"kind": kinds, "flavour": "duo:" + "|".join(m["flavour"] for m in members), "n": sum(m["n"] for m in members),
+            "disc": all(m["disc"] for m in members), "stmts": [s for m in members for s in m["stmts"]],
+            "duo": members, "sched": sched, "handshakes": "sequential" if sequential else "interleaved", "ops": []}
+
+
+def gen_duo_case(rng):
+    """Two direct-write writers alive in one process, each on its own device with its own script (one caller thread
+    per writer), the two scripts interleaved op by op.  One script is a plain clean one; the other is a clean one too
+    or a gated one whose device also pushes surplus `ok` / unsolicited alarm lines between its caller's calls (harmless
+    for its own writer).  Every clause is judged per writer, on that writer's own event log; each writer is also
+    compared with the model run of its own script - the other machine is no part of either."""
+    kinds = rng.choice([("serial", "serial")] * 4 + [("serial", "socket"), ("socket", "serial")])
+    quiet = gen_case(rng, kind=kinds[0], flavour="clean", grbl=rng.random() < 0.2)
+    if rng.random() < 0.6:
+        noisy = gen_gated_case(rng, hit=False, grbl=rng.random() < 0.2, kind=kinds[1])
+    else:
+        noisy = gen_case(rng, kind=kinds[1], flavour="clean", grbl=rng.random() < 0.2)
+    members = [quiet, noisy]
+    if rng.random() < 0.5:
+        members.reverse()
+    sequential = rng.random() < 0.7
+    return make_duo(members, duo_schedule(rng, members, sequential), sequential)
+
+
+def duo_corpus():
+    """Machine A acknowledges its move at once and pushes an alarm while machine B is still busy with a dwell: B's
+    write() may only return on B's own ok; A's alarm belongs to A's next call."""
+    ok = [("ok", False)]
+    hs = [["start"]] + [["D", "-", "o", ok], ["R"]] * 3
+    a = {"kind": "serial", "flavour": "gated", "n": 2, "disc": True, "gated": True, "stmts": ["G1 X100 F300\n", "G1 X0 F300\n"],
+         "ops": hs + [["W"], ["D", "-", "o", ok], ["X", "b", "ALARM:1"], ["R"], ["R"], ["W"], ["D", "-", "o", ok], ["R"],
+                      ["W"], ["D", "-", "o", ok], ["R"], ["settle"]]}
+    b = {"kind": "serial", "flavour": "clean", "n": 2, "disc": True, "stmts": ["G4 P1.5\n", "G1 Y5\n"],
+         "ops": hs + [["D", "-", "o", ok], ["R"], ["D", "-", "o", ok], ["R"], ["D", "-", "o", ok], ["R"], ["settle"]]}
+    h = len(hs)
+    # A and B connect; B's dwell is consumed; A: write(0) acknowledged, alarm pushed and read; only then B's ok
+    sched = [0] * h + [1] * h + [1] + [0] * 5 + [1] + [0] * (len(a["ops"]) - h - 5) + [1] * (len(b["ops"]) - h - 2)
+    return [make_duo([a, b], sched, True)]
+
+
 def exhaustive_cases():
     """Two statements; every reply shape per statement (no line / status / "T:" line, then ok / error) x the two
     extreme interleavings (device eager: consumes as soon as a command arrives; device lazy: every pending line
@@ -481,76 +684,120 @@ def show(d: dict) -> str:
 
 
 # ------------------------------------------------------------------ sub-harness A: release scripts on the real writer
+class Drive:
+    """One real writer driven through its script, one op per `step()`; `expected[i]` = model record (dict) after
+    op i (wait hint and comparison).  A single-writer case is one Drive played to its end; a two-writer case is two
+    Drives alive at once, stepped in the order of the case's schedule.  The session is started by the `start` op."""
+
+    def __init__(self, case, expected, timeout=1.5, settle=0.012, port_name=None):
+        self.case, self.expected, self.timeout, self.settle = case, expected, timeout, settle
+        self.S = sim.Session(case["kind"], case["stmts"], case["disc"], gated=bool(case.get("gated")),
+                             timeout=case.get("timeout"), port_name=port_name)
+        self.impl, self.bad_step, self.i = [], None, 0
+
+    def done(self) -> bool:
+        return self.i >= len(self.case["ops"])
+
+    def step(self):
+        S, case, expected = self.S, self.case, self.expected
+        i, op = self.i, self.case["ops"][self.i]
+        self.i += 1
+        if S.writer is None:
+            S.start()
+        want = project(expected[i + 1]) if expected else None
+        if op[0] in "PDRFLXG" and S.snapshot()["phase"] in ("failed", "disconnected"):
+            did = False  # the writer's device object is gone: nothing can be observed any more
+        elif op[0] == "start":
+            t_end = time.time() + 3.0
+            while time.time() < t_end and not S.tx_lines():
+                time.sleep(0.002)
+            did = True
+        elif op[0] == "P":
+            did = S.probe_again()
+        elif op[0] == "D":
+            did = S.consume([tuple(x) for x in op[3]])
+        elif op[0] == "R":
+            did = S.release()
+        elif op[0] == "F":
+            did = S.release_split(int(op[1]))
+        elif op[0] == "L":
+            did = S.lose()
+        elif op[0] == "X":
+            did = S.push(op[2], op[1] == "b")
+        elif op[0] == "G":
+            did = S.greet(op[1])
+        elif op[0] == "W":
+            S.permit()
+            did = True
+        elif op[0] == "Z":
+            time.sleep(1.6 * case.get("timeout", 0.05))
+            did = True
+        else:
+            did = True
+        noop = "0" if did else "1"
+        snap = None
+        if did or op[0] in ("settle", "Z"):
+            # after the first disagreement the script is still played to its end for the oracle; the model's
+            # prediction then only serves as a wait hint on the caller-visible part, with a short time-out
+            t_end = time.time() + (self.timeout if self.bad_step is None else 0.35)
+            while True:
+                snap = S.snapshot()
+                snap["noop"] = noop
+                got = project(snap)
+                if self.bad_step is not None and want is not None:
+                    reached = all(got.get(k) == want.get(k) for k in OBSERVABLE)
+                else:
+                    reached = want is None or got == want
+                if reached or time.time() > t_end:
+                    break
+                time.sleep(0.002)
+            time.sleep(self.settle)
+        snap = S.snapshot()
+        snap["noop"] = noop
+        if want is not None and want.get("online") == "1" and S.io() is not None:
+            S.io().free_run = True  # reader may time out freely once the printer is online
+        got = project(snap)
+        self.impl.append(got)
+        if want is not None and got != want and self.bad_step is None:
+            self.bad_step = i
+
+
 def run_case(case, expected, timeout=1.5, settle=0.012):
-    """Drive the real writer through `case`; `expected[i]` = model record (dict) after op i (wait hint and
-    comparison).  Returns (impl projections, events, first disagreeing step or None, leftover threads)."""
-    S = sim.Session(case["kind"], case["stmts"], case["disc"], gated=bool(case.get("gated")),
-                    timeout=case.get("timeout")).start()
-    impl, bad_step = [], None
+    """Drive the real writer through `case` (under the case's logging set-up, if it has one).  Returns (impl
+    projections, events, first disagreeing step or None, leftover threads)."""
+    with logging_config(case.get("log")):
+        d = Drive(case, expected, timeout, settle)
+        try:
+            while not d.done():
+                d.step()
+            if d.bad_step is not None or not expected:
+                # let whatever is still running finish so that the oracle sees the final picture
+                time.sleep(0.15)
+        finally:
+            leftover = d.S.cleanup()
+    return d.impl, list(d.S.ev), d.bad_step, leftover
+
+
+def run_duo(case, expected, timeout=1.5, settle=0.012):
+    """Two writers alive at once: `case["duo"]` = the two scripts, `case["sched"]` = whose next op is played.
+    Returns ([(impl projections, events, first disagreeing step) per writer], leftover threads)."""
+    drives = [Drive(m, exp, timeout, settle, port_name=f"/fake/c16-{'ab'[j]}")
+              for j, (m, exp) in enumerate(zip(case["duo"], expected))]
     try:
-        for i, op in enumerate(case["ops"]):
-            want = project(expected[i + 1]) if expected else None
-            if op[0] in "PDRFLXG" and S.snapshot()["phase"] in ("failed", "disconnected"):
-                did = False  # the writer's device object is gone: nothing can be observed any more
-            elif op[0] == "start":
-                t_end = time.time() + 3.0
-                while time.time() < t_end and not S.tx_lines():
-                    time.sleep(0.002)
-                did = True
-            elif op[0] == "P":
-                did = S.probe_again()
-            elif op[0] == "D":
-                did = S.consume([tuple(x) for x in op[3]])
-            elif op[0] == "R":
-                did = S.release()
-            elif op[0] == "F":
-                did = S.release_split(int(op[1]))
-            elif op[0] == "L":
-                did = S.lose()
-            elif op[0] == "X":
-                did = S.push(op[2], op[1] == "b")
-            elif op[0] == "G":
-                did = S.greet(op[1])
-            elif op[0] == "W":
-                S.permit()
-                did = True
-            elif op[0] == "Z":
-                time.sleep(1.6 * case.get("timeout", 0.05))
-                did = True
-            else:
-                did = True
-            noop = "0" if did else "1"
-            snap = None
-            if did or op[0] in ("settle", "Z"):
-                # after the first disagreement the script is still played to its end for the oracle; the model's
-                # prediction then only serves as a wait hint on the caller-visible part, with a short time-out
-                t_end = time.time() + (timeout if bad_step is None else 0.35)
-                while True:
-                    snap = S.snapshot()
-                    snap["noop"] = noop
-                    got = project(snap)
-                    if bad_step is not None and want is not None:
-                        reached = all(got.get(k) == want.get(k) for k in OBSERVABLE)
-                    else:
-                        reached = want is None or got == want
-                    if reached or time.time() > t_end:
-                        break
-                    time.sleep(0.002)
-                time.sleep(settle)
-            snap = S.snapshot()
-            snap["noop"] = noop
-            if want is not None and want.get("online") == "1" and S.io() is not None:
-                S.io().free_run = True  # reader may time out freely once the printer is online
-            got = project(snap)
-            impl.append(got)
-            if want is not None and got != want and bad_step is None:
-                bad_step = i
-        if bad_step is not None or not expected:
-            # let whatever is still running finish so that the oracle sees the final picture
+        for j in case["sched"]:
+            if not drives[j].done():
+                drives[j].step()
+        for d in drives:
+            while not d.done():
+                d.step()
+        if any(d.bad_step is not None for d in drives):
             time.sleep(0.15)
     finally:
-        leftover = S.cleanup()
-    return impl, list(S.ev), bad_step, leftover
+        for d in drives:
+            d.S._stopping = True     # a call that only comes back during the teardown of either writer never completed
+        drives[0].S.cleanup(check_threads=False)
+        leftover = drives[1].S.cleanup()
+    return [(d.impl, list(d.S.ev), d.bad_step) for d in drives], leftover
 
 
 # ------------------------------------------------------------------ oracle (event log only)
@@ -570,6 +817,10 @@ def _flag_setting(text):
 def structural_info(case, ev):
     """Structural facts about the run used by finding predicates (never the oracle's verdict)."""
     info = {"backlog_at_online": 0, "surplus_hit": 0}
+    # a reply that starts with `Error` (printcore's own, case-sensitive test) reaches the writer through two callbacks
+    # of the reader thread (recvcb, then errorcb, which logs the line before it stores the error a second time);
+    # counted when the program has a log handler installed, i.e. when that log record takes time
+    info["error_twice"] = sum(1 for e in ev if e[0] == "rel" and e[2].startswith("Error")) if case.get("log") else 0
     sent = terms = 0
     online_at = None
     for i, e in enumerate(ev):
@@ -735,8 +986,16 @@ def absorb_surplus(fl) -> bool:
     return fl.get("surplus_hit", 0) >= 1 and fl.get("tag") in SHIFT_KINDS
 
 
+def absorb_twice(fl) -> bool:
+    """ErrorReportedTwice: a reply starting with `Error` was delivered to a writer whose log records take time (a
+    handler is installed): the reader thread stores the error once from recvcb and, after logging it, once more from
+    errorcb - by then the caller has raised the first copy and is inside its next call, which the second copy ends
+    at once; the failure is of the kind a shifted acknowledgement produces."""
+    return fl.get("error_twice", 0) >= 1 and fl.get("tag") in SHIFT_KINDS
+
+
 def absorbed_by(fl, listed):
-    for fid, pred in ((FID_BACKLOG, absorb_backlog), (FID_SURPLUS, absorb_surplus)):
+    for fid, pred in ((FID_BACKLOG, absorb_backlog), (FID_SURPLUS, absorb_surplus), (FID_TWICE, absorb_twice)):
         if pred(fl):
             return fid, fid in listed
     return None, False
@@ -744,7 +1003,11 @@ def absorbed_by(fl, listed):
 
 # ------------------------------------------------------------------ running a batch of release scripts
 def case_repr(case):
-    return {k: case[k] for k in ("kind", "flavour", "n", "disc", "gated", "grbl", "timeout", "stmts", "ops") if k in case}
+    out = {k: case[k] for k in ("kind", "flavour", "n", "disc", "gated", "grbl", "timeout", "log", "stmts", "ops",
+                                "handshakes", "sched") if k in case}
+    if "duo" in case:
+        out["duo"] = [case_repr(m) for m in case["duo"]]
+    return out
 
 
 def model_records(cases):
@@ -780,7 +1043,15 @@ def judge(R, case, ev, label, listed):
     return fails, info
 
 
-def run_batch(R, cases, label, listed, compare=True):
+def scripts_error_line(case) -> bool:
+    """does the device of this script send a line that printcore itself treats as an error report (`Error...`)?"""
+    return any(text.startswith("Error") for op in case["ops"] if op[0] == "D" for text, _ in op[3]) or any(
+        op[2].startswith("Error") for op in case["ops"] if op[0] == "X")
+
+
+def run_batch(R, cases, label, listed, compare=True, retry_on_disagreement=True):
+    if not cases:
+        return
     recs = model_records(cases)
     n_dis = n_failing = 0
     for case, exp in zip(cases, recs):
@@ -792,12 +1063,16 @@ def run_batch(R, cases, label, listed, compare=True):
             tries += 1
             info = structural_info(case, ev)
             fails = [f for f in oracle(case, ev) if not absorbed_by(dict(tag=f[0], **info), listed)[0]]
-            if (bad is None and not fails) or tries >= (3 if n_dis < 4 and n_failing < 4 else 1):
+            if ((bad is None or not retry_on_disagreement) and not fails) or tries >= (3 if n_dis < 4 and n_failing < 4 else 1):
                 break
             timeout, settle = timeout * 1.5, settle * 2  # real threads: retry before it counts
         R.count(label, "kind:" + case["kind"], "flavour:" + case["flavour"], f"writes:{case['n']}",
                 "disc" if case["disc"] else "no-disc", f"tries:{tries}",
                 "handshake:grbl" if case.get("grbl") else "handshake:line-numbers")
+        if case.get("log"):
+            lc = case["log"]
+            R.count(f"logging:{lc['level']}", f"logging-at:{lc['at']}", f"logging-sink:{lc['sink']}:{lc['delay_ms']}ms",
+                    f"acks-with-readings:{min(reading_acks(case), 3)}")
         if case.get("grbl"):
             # did the no-line-number connect go all the way (greeting read, probe acknowledged later, connect() returned)?
             R.count("grbl:connect-returned" if any(e[0] == "connected" for e in ev) else
@@ -823,6 +1098,57 @@ def run_batch(R, cases, label, listed, compare=True):
         judge(R, case, ev, label, listed)
         if n_dis >= 6 and len(fresh_failures(R)) >= 3:
             R.notes.append(f"{label}: stopped after {n_dis} disagreeing cases (enough to decide)")
+            break
+
+
+def run_duo_batch(R, cases, label, listed, compare=True):
+    """Two-writer cases: each writer is compared with the model run of its own script and judged by the oracle on its
+    own event log; a failure of either writer is a failure of the case."""
+    n_dis = n_failing = 0
+    for case in cases:
+        exps = model_records(case["duo"])
+        tries, timeout, settle = 0, 1.5, 0.012
+        while True:
+            res, leftover = run_duo(case, exps, timeout, settle)
+            if leftover:
+                raise core.Infra(f"printcore threads left running after a two-writer case: {leftover}")
+            tries += 1
+            judged = []
+            for m, (impl, ev, bad) in zip(case["duo"], res):
+                info = structural_info(m, ev)
+                judged.append((info, [f for f in oracle(m, ev) if not absorbed_by(dict(tag=f[0], **info), listed)[0]]))
+            clean = all(bad is None for _, _, bad in res) and not any(f for _, f in judged)
+            if clean or tries >= (3 if n_dis < 4 and n_failing < 4 else 1):
+                break
+            timeout, settle = timeout * 1.5, settle * 2  # real threads: retry before it counts
+        R.count(label, "kind:" + case["kind"], "flavour:two-writers", "handshakes:" + case["handshakes"], f"tries:{tries}")
+        terms = [sum(1 for e in ev if e[0] == "rel" and e[3]) for _, ev, _ in res]
+        R.case(case_repr(case), nontrivial=all(t >= 4 for t in terms) and all(any(e[0] == "ret" for e in ev) for _, ev, _ in res))
+        # how often did a flag-setting line reach one writer while the other one's write() was waiting?
+        for j, (_, ev, _) in enumerate(res):
+            other = res[1 - j][1]
+            R.count(f"two-writers:{'ab'[j]}:writes-completed:{min(sum(1 for e in ev if e[0] == 'ret'), 3)}")
+            if any(e[0] == "rel" and _flag_setting(e[2]) for e in other) and any(e[0] == "call" for e in ev):
+                R.count("two-writers:flag-lines-on-the-other-device")
+        failing = False
+        for j, (m, (impl, ev, bad)) in enumerate(zip(case["duo"], res)):
+            who = "AB"[j]
+            if bad is not None and compare:
+                n_dis += 1
+                R.disagree("directwrite-two-writers", case_repr(case), show(impl[bad]), show(project(exps[j][bad + 1])),
+                           step=f"writer {who} op {bad}: {m['ops'][bad][:3]}")
+            info = structural_info(m, ev)
+            for tag, msg in oracle(m, ev):
+                fl = dict(tag=tag, **info)
+                fid, is_listed = absorbed_by(fl, listed)
+                if fid and not is_listed:
+                    R.count("unmerged-finding:" + fid)
+                    continue
+                failing = failing or not fid
+                R.fail(case_repr(case), f"[writer {who} of two alive at once, {m['kind']}] {msg}", tag=tag, writer=who, **info)
+        n_failing += 1 if failing else 0
+        if n_dis >= 6 and len(fresh_failures(R)) >= 3:
+            R.notes.append(f"{label}: stopped after {n_dis} disagreeing writers (enough to decide)")
             break
 
 
@@ -1083,8 +1409,25 @@ def witness_surplus():
                     "statement 0 answered 'error:20' then 'ok', the ok read after write(1) had started")
 
 
-FINDING_PREDICATES = {FID_BACKLOG: absorb_backlog, FID_SURPLUS: absorb_surplus}
-WITNESSES = {FID_BACKLOG: witness_backlog, FID_SURPLUS: witness_surplus}
+def twice_case():
+    """Statement 0 is refused with Marlin's `Error:...`, statement 1 acknowledged with ok; the writer's logger has a
+    handler that takes 12 ms per record."""
+    ok = [("ok", False)]
+    ops = [["start"]] + [["D", "-", "o", ok], ["R"]] * 3
+    ops += [["D", "-", "b", [("Error:Printer halted. kill() called!", True)]], ["R"], ["D", "-", "o", ok], ["R"],
+            ["D", "-", "o", ok], ["R"], ["settle"]]
+    return {"kind": "serial", "flavour": "clean+logging", "n": 2, "disc": True, "stmts": ["M104 S200\n", "G1 X5\n"], "ops": ops,
+            "log": {"level": "ERROR", "at": 0, "sink": "sleep", "delay_ms": 12, "debug_only": False}}
+
+
+def witness_twice():
+    """One `Error:` reply, raised by write(0) and once more by write(1) before the device acknowledged statement 1."""
+    return _witness(twice_case(), absorb_twice,
+                    "statement 0 answered 'Error:Printer halted. kill() called!', ERROR records of the writer's logger take 12 ms")
+
+
+FINDING_PREDICATES = {FID_BACKLOG: absorb_backlog, FID_SURPLUS: absorb_surplus, FID_TWICE: absorb_twice}
+WITNESSES = {FID_BACKLOG: witness_backlog, FID_SURPLUS: witness_surplus, FID_TWICE: witness_twice}
 
 
 # ------------------------------------------------------------------ entry points
@@ -1095,10 +1438,16 @@ def run(R: core.Run):
               "release x optional connection loss x optional disconnect(wait=True) x (socket) reply lines arriving in two segments "
               "more than the read time-out apart x handshake (line numbers: silent device, two "
               "M110; no line numbers: 'Grbl ...' greeting first, the probe's ok released later like any line); gated scripts: the caller starts each "
-              "call on command, surplus ok / unsolicited error lines queued behind a reply are read between two calls; non-trivial = at least 4 terminal "
+              "call on command, surplus ok / unsolicited error lines queued behind a reply are read between two calls; logging set-ups (clean scripts "
+              "whose acknowledgements carry the reading themselves x level DEBUG/INFO on the writer module's logger or a package above it x a sink that "
+              "sleeps 3-25 ms or syncs a file per record); two writers alive at once (serial/socket, each with its own script and caller thread, the two "
+              "scripts interleaved op by op, handshakes one after the other or interleaved; judged and compared per writer); non-trivial = at least 4 terminal "
               "replies released and at least one write completed; distinct by hash")
     R.assumptions = [
-        "single caller thread (connect; writes; disconnect), as GCodeBuilder uses a writer; a second thread only in sub-harness C",
+        "one caller thread per writer (connect; writes; disconnect), as GCodeBuilder uses a writer; a second thread on the same "
+        "writer only in sub-harness C; in the two-writer cases the writers share nothing but the process",
+        "a log handler is installed only in the logging cases (elsewhere logging is disabled process-wide); scripts with an 'Error...' "
+        "reply under a log handler are run on the implementation only (finding C16-error-reported-twice is outside the model)",
         "the device answers every received command with exactly one terminal reply (ok... or error.../alarm.../!!...), "
         "may push surplus ok / unsolicited error lines at any time (scripted as separate `X` lines), "
         "reports readings only in the scripted formats (T:/B: temperature, Marlin X/Y/Z/E position reports, Grbl status "
@@ -1121,9 +1470,11 @@ def run(R: core.Run):
     ]
     logging.disable(logging.CRITICAL)  # printcore / writer log every device error
     listed = {f.get("id") for f in core.load_findings(PROP) if f.get("status") == "finding"}
-    for fid in (FID_BACKLOG, FID_SURPLUS):
+    for fid in (FID_BACKLOG, FID_SURPLUS, FID_TWICE):
         if fid not in listed:
-            R.notes.append(f"{fid} is not yet in known_findings.json: its cases are compared with the model but "
+            R.notes.append(f"{fid} is not yet in known_findings.json: its cases are " +
+                           ("run on the implementation only (the model stores an error line once) and "
+                            if fid == FID_TWICE else "compared with the model but ") +
                            "their oracle failures are only counted (see harness/findings_c16.json)")
     n = R.n(40, 800)
     n_sock = max(2, n // 8)
@@ -1153,6 +1504,17 @@ def run(R: core.Run):
     # reply lines that reach the host in two TCP segments, more than the device's read time-out apart (each such
     # release costs about 0.3 s: few cases, two split lines each)
     run_batch(R, fragmented_corpus() + fragmented_cases(R.rng, R.n(3, 24)), "socket-fragmented", listed)
+    # the program's logging set-up as a dimension: acknowledgements that carry the reading themselves, the writer's
+    # logger switched on with a sink that takes its time (the reader thread is slow inside the handling of one line)
+    n_log = R.n(4, 60)
+    logged = logged_corpus() + [gen_logged_case(R.rng, kind="socket" if k % 6 == 5 else "serial") for k in range(n_log)]
+    run_batch(R, [c for c in logged if not scripts_error_line(c)], "logging", listed)
+    # scripts with an `Error...` reply under a log handler run into finding C16-error-reported-twice, which the model
+    # has no notion of (it stores an error line once): implementation + oracle only, absorbed failures are counted
+    run_batch(R, [c for c in logged if scripts_error_line(c)], "logging+Error-reply", listed, compare=False,
+              retry_on_disagreement=False)
+    # two writers alive at once, each on its own device, their scripts interleaved
+    run_duo_batch(R, duo_corpus() + [gen_duo_case(R.rng) for _ in range(R.n(4, 60))], "two-writers", listed)
     sub_delay(R, listed)
     sub_held(R)
     if R.thorough:
@@ -1175,7 +1537,9 @@ def run(R: core.Run):
         extra += [gen_gated_case(R.rng, hit=False) for _ in range(R.n(10, 40))]
         extra += [gen_case(R.rng, flavour="clean", timeout=0.05) for _ in range(R.n(4, 12))]
         extra += fragmented_cases(R.rng, R.n(3, 10))
+        extra += [gen_logged_case(R.rng) for _ in range(R.n(6, 24))]
         run_batch(R, extra, "search", listed, compare=False)
+        run_duo_batch(R, [gen_duo_case(R.rng) for _ in range(R.n(6, 24))], "search-two-writers", listed, compare=False)
         sub_delay(R, listed)
     logging.disable(logging.NOTSET)
     return FINDING_PREDICATES, WITNESSES
@@ -1200,6 +1564,20 @@ def replay(data):
         bad = obs.get("problem") or (obs.get("queued") and obs.get("disc_returned_while_queued") and not obs.get("sent_while_queued"))
         print("oracle:", "disconnect(wait=True) returned while the statement was still queued" if bad else "ok")
         return 1 if bad else 0
+    if case.get("duo"):
+        exps = model_records(case["duo"])
+        res, left = run_duo(case, exps)
+        rc = 0
+        for j, (m, (impl, ev, bad)) in enumerate(zip(case["duo"], res)):
+            fails = oracle(m, ev)
+            print(f"--- writer {'AB'[j]} ({m['kind']}, {m['flavour']})")
+            if bad is not None:
+                print(f"op {bad} {m['ops'][bad][:3]}\n  impl : {show(impl[bad])}\n  model: {show(project(exps[j][bad + 1]))}")
+            print("events:", ev)
+            print("structure:", structural_info(m, ev))
+            print("oracle:", fails or "ok")
+            rc = 1 if (fails or bad is not None) else rc
+        return rc
     exp = model_records([case])[0]
     impl, ev, bad, left = run_case(case, exp)
     fails = oracle(case, ev)
